@@ -44,7 +44,40 @@ def tok_time(t):
     return "%s %s %s" % (I(t.hour), I(t.minute), I(t.second))
 
 
+def specials():
+    """boundaries that sampling would hit too rarely: the 1582 calendar switch, day-number
+    boundaries of the inverse, month/century turns"""
+    for (y, m, d) in [(1582, 10, 4), (1582, 10, 5), (1582, 10, 14), (1582, 10, 15), (1582, 10, 16),
+                      (1582, 12, 31), (1583, 1, 1), (1600, 2, 29), (1700, 2, 28), (1700, 3, 1),
+                      (1900, 1, 1), (1900, 2, 28), (1900, 3, 1), (2000, 2, 29), (2000, 3, 1),
+                      (1, 1, 1), (1, 3, 1), (9999, 12, 31), (4, 2, 29), (100, 3, 1)]:
+        date = datetime.date(y, m, d)
+        for (h, mi, sec) in [(0, 0, 0), (12, 0, 0), (23, 59, 59), (6, 30, 15)]:
+            dt = datetime.datetime(y, m, d, h, mi, sec)
+            for cal in (1, 2):
+                calv = J.Calendar.GREGORIAN if cal == 1 else J.Calendar.JULIAN
+                yield Case("julianday", "julianday_dt %s %s" % (I(wall_us(dt)), I(cal)),
+                           FS(J.julianday(dt, calv)), {"datetime": str(dt), "calendar": cal})
+            jd = J.julianday(dt)
+            st, v = call(J.julianday_to_datetime, jd)
+            yield Case("julianday_to_datetime", "julianday_to_datetime %s" % F(jd),
+                       I(wall_us(v)) if st == "ok" else E(v), {"jd": jd, "from": str(dt)})
+            st, v = call(J.julianday_modified, dt)
+            yield Case("julianday_modified", "julianday_modified %s" % I(wall_us(dt)),
+                       FS(v) if st == "ok" else E(v), {"datetime": str(dt)})
+        yield Case("julianday", "julianday_date %s %s" % (I(date.toordinal()), I(1)),
+                   FS(J.julianday(date)), {"date": str(date), "calendar": 1})
+    for z in (2299159, 2299160, 2299161, 2299162, 1867216, 1867217, 2451545, 1721426):
+        for fr in (-0.5, -0.25, 0.0, 0.25, 0.499999):
+            jd = z + fr
+            st, v = call(J.julianday_to_datetime, jd)
+            yield Case("julianday_to_datetime", "julianday_to_datetime %s" % F(jd),
+                       I(wall_us(v)) if st == "ok" else E(v), {"jd": jd})
+
+
 def gen(rng, n, tier="quick"):
+    for c in specials():
+        yield c
     for i in range(n):
         o = rand_ordinal(rng)
         d = datetime.date.fromordinal(o)
